@@ -23,6 +23,7 @@ RULE = (
     "unachievable targets) on a generated model with 2-7 exchanges written as export (x_e <=>), "
     "import (<=> x_e) or with non-unit coefficients.  Non-trivial when the medium is a proper "
     "subset of the exchanges / the target needs >= 1 import; distinct by (model hash, arguments)."
+    " A third of the small models gets alternative nutrient routes of different sizes; minimize_components is also asked for 5 and 8 alternatives."  # third-session additions
 )
 ASSUMPTIONS = [
     "exchanges = boundary reactions on the external compartment 'e' (the documented regime of the heuristic)",
